@@ -229,7 +229,8 @@ class Ctx:
 
     # ---------------------------------------------------------------- C side
     def cc(self, out, sources, flags=(), san=True, timeout=300, cc='gcc'):
-        cmd = [cc, '-g', '-O1', '-D' + GUARD, '-I' + os.path.join(REPO, 'include'), '-I' + os.path.join(VERIF, 'harness')]
+        cmd = [cc, '-g', os.environ.get('VERIF_OPT', '-O0'), '-D' + GUARD,   # -O0: the repository builds its library without -O
+               '-I' + os.path.join(REPO, 'include'), '-I' + os.path.join(VERIF, 'harness')]
         if san:
             cmd += ['-fsanitize=address,bounds', '-fno-sanitize-recover=all', '-fno-omit-frame-pointer']
         cmd += list(flags) + ['-o', os.path.join(self.tmp, out)] + list(sources)
